@@ -58,7 +58,7 @@ impl Property for C05 {
         }
     }
     fn rule(&self) -> &'static str {
-        "kind 0: constant-time programs (DI busy loop, EI busy loop with a 39-T IM-2 handler, EI;HALT idle loop) in uncontended RAM run for K frames under a seeded host slicing (FrameCount(n), Max mode stopped by scripted stopwatch readings, breakpoint stops every n-th instruction) with the exact equation executed T = K*F + r_K - r_0 and interrupt count = K; kind 1: INT-window probe (clock set to x in [0,48) or around the frame end, one step, accepted iff x<32); kind 2: frame-length probe (NOP stream single-stepped across the frame end, remainder carried); kind 3: whole-machine lock-step of seeded random code (any instruction mix, contended or not, EI/DI/HALT/IM 0-2 as the bytes fall) against RefZ80 on RefMem+RefULA with no re-synchronisation: cumulative time (frames x F + clock) compared after every instruction, judged at frame crossings and interrupt entries. distinct = (machine, kind, program, K bucket, slicing kinds used, overrun r_K)"
+        "kind 0: constant-time programs (DI busy loop, EI busy loop with a 39-T IM-2 handler, EI;HALT idle loop) in uncontended RAM run for K frames under a seeded host slicing (FrameCount(n), Max mode stopped by scripted stopwatch readings, breakpoint stops every n-th instruction; in a quarter of the runs an unreadable tape is started so that emulate_frames returns an error mid-frame and the host carries on) with the exact equation executed T = K*F + r_K - r_0 and interrupt count = K; kind 1: INT-window probe (clock set to x in [0,48) or around the frame end, one step, accepted iff x<32); kind 2: frame-length probe (NOP stream single-stepped across the frame end, remainder carried); kind 3: whole-machine lock-step of seeded random code (any instruction mix, contended or not, EI/DI/HALT/IM 0-2 as the bytes fall) against RefZ80 on RefMem+RefULA with no re-synchronisation: cumulative time (frames x F + clock) compared after every instruction, judged at frame crossings and interrupt entries. distinct = (machine, kind, program, K bucket, slicing kinds used, overrun r_K)"
     }
     fn state_measure(&self) -> &'static str {
         "distinct (machine, in-frame offset r at a checked boundary) pairs"
@@ -73,7 +73,7 @@ impl Property for C05 {
         vec!["programs live in uncontended RAM (0x8000-0xBFFF), so instruction times are the documented ones (C03) and independent of C04", "kinds 0-2 use programs in uncontended RAM; kind 3 (lock-step) runs arbitrary code and relies on RefULA for contention: a clock difference inside a frame is left to C04, a register difference to C01/C06 (the pair is re-synchronised)"]
     }
     fn expected_probes(&self) -> Vec<&'static str> {
-        vec!["halted_di_program", "overrun_nonzero", "max_mode_call", "breakpoint_call", "multi_frame_call", "window_edge_31_32", "frame_end_step", "lockstep_frame_crossed", "lockstep_interrupt"]
+        vec!["halted_di_program", "overrun_nonzero", "max_mode_call", "breakpoint_call", "multi_frame_call", "window_edge_31_32", "frame_end_step", "lockstep_frame_crossed", "lockstep_interrupt", "tape_error_survived"]
     }
 
     fn gen(&self, rng: &mut Rng, tier: Tier, idx: u64) -> Scenario {
@@ -100,6 +100,8 @@ impl Property for C05 {
                 let k = *rng.pick(&[1i64, 2, 3, 5, 16, 17]).min(&kmax).max(&1) + rng.range(0, kmax / 2);
                 sc.set("frames", k);
                 sc.set("r0", if rng.chance(1, 3) { rng.range(0, 69000) } else { 0 });
+                sc.set("tape_err", if rng.chance(1, 4) { rng.range(1, 2) } else { 0 });
+                sc.set("tape_at", rng.range(0, 3));
                 // slicing: list of calls until K frames are done
                 let mut left = k;
                 while left > 0 {
@@ -161,6 +163,17 @@ impl Property for C05 {
                 let mut hl_count: i64 = 0;
                 let mut prev_hl: u16 = 0;
                 let mut slices_used = 0u8;
+                let tape_err = sc.get("tape_err") != 0;
+                let tape_at = sc.get("tape_at").max(0);
+                let mut call_no = 0i64;
+                if tape_err {
+                    // an empty TAP entry (InvalidTapFile when the deck reaches it), or a host asset whose read fails
+                    let bad = sc.get("tape_err") == 1;
+                    let img: Vec<u8> = if bad { vec![0x00, 0x00, 0x02, 0x00, 0xFF, 0xFF] } else { zxref::tape::make_tap(&[zxref::tape::std_block(0xFF, &[1, 2, 3])]) };
+                    let plan = crate::host::AssetPlan { read_err_at: if bad { None } else { Some(1) }, ..Default::default() };
+                    let (a, _) = crate::host::SimAsset::new(img, plan);
+                    let _ = e.load_tape(rustzx_core::host::Tape::Tap(crate::host::AnyAsset::Sim(a)));
+                }
                 for op in sc.ops.iter().filter(|o| o.k == "call") {
                     let n = op.arg(1).clamp(1, 8) as usize;
                     let slice = match op.arg(0) {
@@ -186,7 +199,22 @@ impl Property for C05 {
                         }
                     };
                     rng = Rng::new(op.arg(3) as u64);
-                    let done = drive(&mut e, slice, &mut rng).map_err(|x| Fail::new("C05.drive", "", x))?;
+                    let done = if tape_err {
+                        // a tape that cannot be read is started before this call: emulate_frames reports the error
+                        // in the middle of a frame, the host stops the deck and carries on. Time keeps being conserved.
+                        if call_no == tape_at {
+                            e.play_tape();
+                        }
+                        let (d, errs) = drive_tolerant(&mut e, slice).map_err(|x| Fail::new("C05.drive", "", x))?;
+                        if errs > 0 {
+                            ctx.probe("tape_error_survived");
+                            ctx.fault_n("tape_read_error", errs as u64);
+                        }
+                        d
+                    } else {
+                        drive(&mut e, slice, &mut rng).map_err(|x| Fail::new("C05.drive", "", x))?
+                    };
+                    call_no += 1;
                     frames += done as i64;
                     ctx.sim_t += (done as i64 * f) as u64;
                     // accounting at this host-visible frame boundary
